@@ -31,6 +31,9 @@ enum Job {
     SharedRedeem { prog: Arc<RedeemNode>, elements: bool },
     SharedCommit { prog: Arc<CommitNode>, elements: bool },
     SharedValue { v: Value },
+    /// n fresh type variables in one own context; the digest is the pattern of their names
+    /// (first occurrence index), which is 0,1,2,.. exactly when names are unique in the context
+    Names { n: usize },
 }
 
 fn digest_redeem(h: &mut Fnv, r: &RedeemNode) {
@@ -146,6 +149,19 @@ fn run_job(job: &Job) -> u64 {
                 Err(e) => h.write(e.to_string().as_bytes()),
             }
         }
+        Job::Names { n } => {
+            types::Context::with_context(|ctx| {
+                use simplicity::node::CoreConstructible;
+                let mut seen: std::collections::HashMap<String, usize> = std::collections::HashMap::new();
+                for _ in 0..*n {
+                    let node = Arc::<simplicity::ConstructNode>::iden(&ctx);
+                    let name = format!("{}", node.arrow().source);
+                    let next = seen.len();
+                    let id = *seen.entry(name).or_insert(next);
+                    h.write_u64(id as u64);
+                }
+            });
+        }
         Job::SharedValue { v } => {
             use std::hash::{Hash, Hasher};
             #[allow(deprecated)]
@@ -182,7 +198,22 @@ fn expand(seed: u32, n: usize) -> Vec<u8> {
         .collect()
 }
 
-pub fn case(cx: &mut Case) -> CaseResult {
+struct Batch {
+    n_threads: usize,
+    jobs: Arc<Vec<Job>>,
+    assignment: Vec<usize>,
+    reverse: Vec<bool>,
+    shared_redeem: usize,
+    shared_commit: usize,
+    /// run the concurrent part in a fresh process, before anything else has touched the
+    /// library there (first-use initialisation is then exercised under contention)
+    fresh_process: bool,
+}
+
+/// The batch is a pure function of the stream (the child process of `fresh_process` cases
+/// rebuilds it from the same bytes).
+fn build_batch(cx: &mut Case) -> Batch {
+    let fresh_process = cx.src.chance(48);
     let n_jobs = cx.src.range(16, 64);
     let n_threads = [2usize, 4, 8, 12, 16][cx.src.below(5)];
     // shared objects prepared on the main thread
@@ -213,9 +244,13 @@ pub fn case(cx: &mut Case) -> CaseResult {
             let mut vb = ValBuilder::new();
             let mut s = sub.src.clone();
             let wit = gen_witnesses(&prog, &typed, &mut s, &mut vb);
-            for v in wit.values.values() {
+            // (in key order: the batch must be the same in the child process of a fresh-process
+            //  case, and HashMap iteration order differs between processes)
+            let mut keys: Vec<&Id> = wit.values.keys().collect();
+            keys.sort();
+            for k in keys {
                 if shared_values.len() < 4 {
-                    shared_values.push(v.shallow_clone());
+                    shared_values.push(wit.values[k].shallow_clone());
                 }
             }
             if let Ok(r) = build_redeem(&prog, true, &wit.values) {
@@ -228,7 +263,8 @@ pub fn case(cx: &mut Case) -> CaseResult {
     }
     let mut jobs: Vec<Job> = vec![];
     for _ in 0..n_jobs {
-        let job = match cx.src.weighted(&[4, 3, 2, 2]) {
+        let job = match cx.src.weighted(&[4, 3, 2, 2, 1]) {
+            4 => Job::Names { n: cx.src.range(200, 3000) },
             0 => {
                 let len = cx.src.range(8, 160);
                 Job::Pipeline { seed: expand(cx.src.u32(), len), elements: cx.src.chance(80) }
@@ -258,12 +294,15 @@ pub fn case(cx: &mut Case) -> CaseResult {
             Job::SharedRedeem { prog, .. } => cx.fp.write(prog.ihr().as_ref()),
             Job::SharedCommit { prog, .. } => cx.fp.write(prog.cmr().as_ref()),
             Job::SharedValue { v } => cx.fp.write(v.ty().tmr().as_ref()),
+            Job::Names { n } => cx.fp.write_u64(*n as u64),
         }
     }
-    // sequential reference run
-    let sequential: Vec<u64> = jobs.iter().map(run_job).collect();
-    // concurrent run
-    let jobs = Arc::new(jobs);
+    Batch { n_threads, jobs: Arc::new(jobs), assignment, reverse, shared_redeem: shared_redeem.len(), shared_commit: shared_commit.len(), fresh_process }
+}
+
+fn run_concurrent(b: &Batch) -> Result<Vec<u64>, String> {
+    let (n_threads, n_jobs) = (b.n_threads, b.jobs.len());
+    let (jobs, assignment, reverse) = (b.jobs.clone(), b.assignment.clone(), b.reverse.clone());
     let barrier = Arc::new(Barrier::new(n_threads));
     let mut handles = vec![];
     for t in 0..n_threads {
@@ -294,11 +333,82 @@ pub fn case(cx: &mut Case) -> CaseResult {
             Err(_) => return Err(format!("thread {} of {} panicked while running its jobs concurrently (the same jobs ran sequentially without panic)", t, n_threads)),
         }
     }
+    Ok(concurrent)
+}
+
+/// Entry point of the child process of `fresh_process` cases (`vcheck-bin c20child <hex stream>`):
+/// rebuild the batch, run only the concurrent part, print the digests.
+pub fn child_main(stream: &[u8]) -> i32 {
+    let known = Known::default();
+    let mut cx = Case::new(stream, Tier::Quick, "C20", &known);
+    let b = build_batch(&mut cx);
+    match run_concurrent(&b) {
+        Ok(d) => {
+            println!("C20CHILD-OK {}", d.iter().map(|x| format!("{:016x}", x)).collect::<Vec<_>>().join(","));
+            0
+        }
+        Err(m) => {
+            println!("C20CHILD-FAIL {}", m);
+            0
+        }
+    }
+}
+
+fn run_concurrent_in_fresh_process(stream: &[u8]) -> Result<Result<Vec<u64>, String>, String> {
+    let exe = std::env::current_exe().map_err(|e| harness_error(format!("current_exe: {}", e)))?;
+    let out = std::process::Command::new(exe)
+        .arg("c20child")
+        .arg(hex(stream))
+        .env("MALLOC_MMAP_THRESHOLD_", "33554432")
+        .output()
+        .map_err(|e| harness_error(format!("cannot start the child process: {}", e)))?;
+    let text = String::from_utf8_lossy(&out.stdout);
+    for line in text.lines() {
+        if let Some(rest) = line.strip_prefix("C20CHILD-OK ") {
+            let mut v = vec![];
+            for x in rest.split(',').filter(|x| !x.is_empty()) {
+                v.push(u64::from_str_radix(x, 16).map_err(|e| harness_error(format!("child output: {}", e)))?);
+            }
+            return Ok(Ok(v));
+        }
+        if let Some(rest) = line.strip_prefix("C20CHILD-FAIL ") {
+            return Ok(Err(rest.to_string()));
+        }
+    }
+    // the child died (abort, stack overflow, ...) while running the jobs concurrently
+    Ok(Err(format!("the child process running the batch concurrently ended with {:?} without a result; stderr: {}", out.status, String::from_utf8_lossy(&out.stderr).lines().rev().take(3).collect::<Vec<_>>().join(" | "))))
+}
+
+pub fn case(cx: &mut Case) -> CaseResult {
+    let stream: Vec<u8> = cx.src.clone().rest().to_vec();
+    let b = build_batch(cx);
+    let (n_threads, n_jobs) = (b.n_threads, b.jobs.len());
+    let (jobs, assignment) = (b.jobs.clone(), b.assignment.clone());
+    let (shared_redeem, shared_commit) = (b.shared_redeem, b.shared_commit);
+    // The concurrent run of a fresh-process case happens in a child that has not used the
+    // library before; otherwise the order of the two runs in this process is drawn.
+    let concurrent_first = !b.fresh_process && b.reverse.first().copied().unwrap_or(false);
+    let mut concurrent: Option<Vec<u64>> = None;
+    if b.fresh_process {
+        cx.label("concurrent run in a fresh process");
+        concurrent = Some(run_concurrent_in_fresh_process(&stream)?.map_err(|m| format!("{} (fresh process)", m))?);
+    } else if concurrent_first {
+        cx.label("concurrent run before the sequential run");
+        concurrent = Some(run_concurrent(&b)?);
+    }
+    let sequential: Vec<u64> = jobs.iter().map(run_job).collect();
+    let concurrent = match concurrent {
+        Some(c) => c,
+        None => run_concurrent(&b)?,
+    };
+    if concurrent.len() != n_jobs {
+        return Err(harness_error(format!("concurrent run returned {} digests for {} jobs", concurrent.len(), n_jobs)));
+    }
     let threads_sharing = {
         // number of threads that touch some shared object
         let mut set = std::collections::HashSet::new();
         for (j, a) in jobs.iter().zip(assignment.iter()) {
-            if !matches!(j, Job::Pipeline { .. }) {
+            if !matches!(j, Job::Pipeline { .. } | Job::Names { .. }) {
                 set.insert(*a);
             }
         }
@@ -313,7 +423,7 @@ pub fn case(cx: &mut Case) -> CaseResult {
         _ => "16 threads",
     });
     cx.label_if(threads_sharing >= 2, "Arc shared by >= 2 threads");
-    cx.set_sample(|| json!({"jobs": n_jobs, "threads": n_threads, "shared_redeem_programs": shared_redeem.len(), "shared_commit_programs": shared_commit.len(), "kinds": jobs.iter().map(|j| match j { Job::Pipeline{..} => "pipeline", Job::SharedRedeem{..} => "shared redeem", Job::SharedCommit{..} => "shared commit", Job::SharedValue{..} => "shared value" }).collect::<Vec<_>>()}));
+    cx.set_sample(|| json!({"jobs": n_jobs, "threads": n_threads, "shared_redeem_programs": shared_redeem, "shared_commit_programs": shared_commit, "kinds": jobs.iter().map(|j| match j { Job::Pipeline{..} => "pipeline", Job::SharedRedeem{..} => "shared redeem", Job::SharedCommit{..} => "shared commit", Job::SharedValue{..} => "shared value", Job::Names{..} => "variable names" }).collect::<Vec<_>>()}));
     for j in 0..n_jobs {
         if sequential[j] != concurrent[j] {
             return Err(format!("job {} gives a different result when run concurrently ({} threads) than sequentially", j, n_threads));
